@@ -144,7 +144,14 @@ def run(rep, tier, rng):
                            "expected": "Model/NetworkCtx.v build_model (proved: one map per model, fresh per model)"})
 
     # ---- reproducibility from the seed --------------------------------------------
-    rtrees = [t for t in trees if "7" in repr(t) or "3" in repr(t) or "11" in repr(t)][: (40 if quick else 300)]
+    def has_seed(t):
+        return t[0] == "S" and t[2] is not None or (t[0] != "M" and any(has_seed(x) for x in t[-1]))
+    seeded_trees = [t for t in trees if has_seed(t)]
+    # both kinds of root (a plain nengo.Network root takes the master-map branch), and the seed 0
+    n_each = 20 if quick else 150
+    rtrees = [t for t in seeded_trees if t[0] == "P"][:n_each] + [t for t in seeded_trees if t[0] == "S"][:n_each] \
+        + [t for t in seeded_trees if ", 0, " in repr(t)][:n_each // 2]
+    rtrees += [("P", [("S", False, 7, [("M", 16), ("P", [("M", 32)])]), ("M", 16)]), ("P", [("P", [("S", False, 11, [("M", 16)])])])]
     qs, qmeta = [], []
     for t in rtrees:
         runs = []
@@ -176,6 +183,58 @@ def run(rep, tier, rng):
                           {"case": {"tree": repr(t), "module": i}})
 
     # ---- rejected arguments -----------------------------------------------------------
+    # ---- every module class honours an explicitly supplied vocabulary map ------------------------------------------
+    from nengo_spa.vocabulary import VocabularyMap
+    CLASSES = {
+        "State": lambda vm: spa.State(16, vocabs=vm), "Bind": lambda vm: spa.Bind(16, vocabs=vm), "Compare": lambda vm: spa.Compare(16, vocabs=vm),
+        "Superposition": lambda vm: spa.Superposition(2, 16, vocabs=vm),
+        "Transcode": lambda vm: spa.Transcode(input_vocab=16, output_vocab=16, vocabs=vm),
+        "ThresholdingAssocMem": lambda vm: spa.ThresholdingAssocMem(0.3, 16, mapping=["A"], vocabs=vm),
+        "WTAAssocMem": lambda vm: spa.WTAAssocMem(0.3, 16, mapping=["A"], vocabs=vm),
+        "IAAssocMem": lambda vm: spa.IAAssocMem(16, mapping=["A"], vocabs=vm),
+    }
+    for cname, mkmod in CLASSES.items():
+        for shared_first in (False, True):
+            with spa.Network(seed=1) as model:
+                if shared_first:
+                    spa.State(16)        # the model-wide 16-d vocabulary exists already
+                vm = VocabularyMap(rng=np.random.RandomState(9))
+                o = c.outcome(lambda: mkmod(vm))
+                rep.case(("explicit-vocabs", cname, shared_first))
+                rep.count("explicit_vocabs_per_class")
+                if o[0] != "ok":
+                    rep.violation(f"{cname}(..., vocabs=<explicit map>) raised {o[0]}: {str(o[1])[:100]}", {"case": {"class": cname}})
+                    continue
+                mod = o[1]
+                used = [getattr(mod, a) for a in ("vocab", "input_vocab", "output_vocab") if getattr(mod, a, None) is not None]
+                want = vm.get_or_create(16)
+                if mod.vocabs is not vm or not used or any(u is not want for u in used) or any(u is model.vocabs.get_or_create(16) for u in used):
+                    rep.violation(f"{cname} ignores the explicitly supplied vocabulary map (module built {'after' if shared_first else 'before'} the model-wide vocabulary)",
+                                  {"case": {"class": cname, "shared_first": shared_first},
+                                   "python": "import numpy as np, nengo_spa as spa\nfrom nengo_spa.vocabulary import VocabularyMap\nwith spa.Network():\n"
+                                             f"    vm = VocabularyMap(); m = spa.{cname}(" + {"State": "16", "Bind": "16", "Compare": "16", "Superposition": "2, 16",
+                                                                                         "Transcode": "input_vocab=16, output_vocab=16", "ThresholdingAssocMem": "0.3, 16, mapping=['A']",
+                                                                                         "WTAAssocMem": "0.3, 16, mapping=['A']", "IAAssocMem": "16, mapping=['A']"}[cname]
+                                             + ", vocabs=vm)\nassert m.vocabs is vm\n"})
+
+    # a dimensionality is an integer, whatever was built before
+    for prior in (False, True):
+        for arg in (16.0, np.float64(16.0), 32.0):
+            with spa.Network():
+                if prior:
+                    spa.State(16, subdimensions=1)
+                    spa.State(32, subdimensions=1)
+                try:
+                    spa.State(arg, subdimensions=1)
+                    got = True
+                except Exception:  # noqa
+                    got = False
+            rep.case(("float-dim", prior, repr(arg)))
+            rep.count("rejected_args")
+            if got:
+                rep.violation(f"State({arg!r}) was accepted {'after modules of that dimensionality exist' if prior else 'in a fresh model'} (a dimensionality must be an integer)",
+                              {"case": {"arg": repr(arg), "after_existing_vocabulary": prior},
+                               "python": "import nengo_spa as spa\nwith spa.Network():\n    spa.State(16)\n    try:\n        spa.State(16.0)\n    except Exception:\n        pass\n    else:\n        raise AssertionError('float dimensionality accepted')\n"})
     for arg, want in [(0, False), (-3, False), (1, True), (16, True), (2.5, False), ("16", False), (None, None), ([16], False)]:
         if want is None:
             continue
